@@ -13,6 +13,7 @@
 
 #include "cppStructType.h"
 #include "cppTypedefType.h"
+#include "cppConstType.h"
 #include "cppReferenceType.h"
 #include "cppScope.h"
 #include "cppTypeProxy.h"
@@ -546,11 +547,15 @@ is_default_constructible(CPPVisibility min_vis) const {
       return false;
     }
 
-    return true;
-  }
+    if ((constructor->_storage_class & CPPInstance::SC_defaulted) == 0) {
+      return true;
+    }
 
-  // Does it have constructors at all?  If so, no implicit one is generated.
-  if (get_constructor() != nullptr) {
+    // An explicitly defaulted default constructor is deleted under the same
+    // conditions as an implicit one, so check the bases and members below.
+
+  } else if (get_constructor() != nullptr) {
+    // Does it have constructors at all?  If so, no implicit one is generated.
     return false;
   }
 
@@ -583,6 +588,14 @@ is_default_constructible(CPPVisibility min_vis) const {
     }
 
     if (!instance->_type->is_default_constructible()) {
+      return false;
+    }
+
+    CPPConstType *const_type = instance->_type->as_const_type();
+    if (const_type != nullptr &&
+        const_type->_wrapped_around->as_struct_type() == nullptr) {
+      // A const member of non-class type without an initializer cannot be
+      // default-initialized, which makes the constructor deleted.
       return false;
     }
   }
